@@ -83,7 +83,7 @@ def run(ck):
     def strict(bound):
         c = consts(bound)
         cfg = vlib.cfg_with(sw, "SlotSeqImpl_strict.cfg", c)
-        r = vlib.tlc(sw, "SlotSeqImpl", cfg, workers=8, timeout=2400, extra=["-coverage", "1"])
+        r = vlib.tlc(sw, "SlotSeqImpl", cfg, workers=8, timeout=2400)
         ck.add_tlc("SlotSeqImpl exhaustive (monitor clean, invariants)", r, c)
         if not r.ok:
             ck.cov["model_findings"].append("strict %s: %s" % (bound, r.violated or r.error))
